@@ -246,7 +246,7 @@ def _evaluate(full, root, out, labels, preexisting=()):
                 ok, why = m.durable(f)
                 if not ok:
                     cls = "data" if f.startswith("data/") else ("manifest" if "manifests/" in f else "metadata")
-                    key = (cls, why)
+                    key = (cls, why, ops[idx])
                     if key not in reported:
                         reported.add(key)
                         out["violations"].append((f"not-durable-at-flip/{cls}/{why.replace(' ', '-')}",
@@ -374,7 +374,12 @@ def check_fsync_fault(case):
             except Exception as e:  # noqa
                 outcome = f"raise:{type(e).__name__}"
             state["armed"] = False
+            # fault-free commits afterwards: through the SAME handle (whatever the failed fsync left behind on it) and through a fresh one
             state["op"] = "follow-up"
+            try:
+                t.append_records([{"k": 49, "s": "after-same-handle"}])
+            except Exception:
+                labels["follow-up-raised"] += 1
             try:
                 datashard.load_table(root).append_records([{"k": 50, "s": "after"}])
             except Exception:
@@ -387,6 +392,14 @@ def check_fsync_fault(case):
         labels[f"fsync-fault:{'dir' if on_dir else 'file'}"] += 1
         labels[f"fsync-fault-outcome:{outcome.split(':')[0]}"] += 1
         _evaluate(full, root, out, labels)
+        later = [(b, w) for b, w in out["violations"] if w.startswith("op follow-up:")]
+        if later:
+            # the fault is over and a LATER, fault-free commit is not durable: not explained by the one fsync that failed
+            out["violations"] = [("later-commit-not-durable-after-failed-fsync/" + b, w + f" [earlier, the {case['k']}-th fsync of {case['op']} (on {state['fired']!r}) had failed once with EIO; the operation reported {outcome}]") for b, w in later[:1]]
+            out["nontrivial"] = True
+            out["nt_keys"] = {f"fsyncfault|{case['op']}|{c04.norm_label('os.fsync', state['fired'])}"}
+            out["labels"] = sorted(labels)
+            return out
         if on_dir and out["violations"]:
             # one root cause whatever the symptom: LocalStorageBackend.write_file / DataFileWriter.close swallow every OSError of the directory fsync
             out["violations"] = [("failed-directory-fsync-swallowed", out["violations"][0][1] + f" [the {case['k']}-th fsync of {case['op']} (on directory {state['fired']!r}) had failed with EIO; the operation reported {outcome}]")]
